@@ -118,7 +118,7 @@ def case_term(c):
 
 
 def slim(c):
-    d = {k: c.get(k) for k in ("stream", "cfg", "log", "flush", "flush_err", "ctx", "dec", "dec_err", "declog", "oracle", "features", "what", "expect", "region_violation")}
+    d = {k: c.get(k) for k in ("stream", "cfg", "log", "flush", "flush_err", "ctx", "dec", "dec_err", "declog", "oracle", "features", "what", "expect", "region_violation", "reader_dep")}
     d["info"] = c.get("info", "")[:4000]
     if len(json.dumps(d.get("log"))) > 20000:   # a payload of 100 kB: the case replays from (seed, tier)
         d["log"] = "omitted (large payload; regenerate with the recorded seed): " + json.dumps(d["log"])[:2000]
@@ -166,6 +166,14 @@ def run(chk, only_seed=None):
             continue
         reported.add(key)
         chk.violation("undo log not restored: " + c["oracle"], {"case": slim(c), "seed": c.get("seed", chk.seed), "tier": chk.tier}, True)
+    # the stored (context, rollback_info) alone decides the decoding: never the reader's configuration
+    seen_dep = set()
+    for c in sorted((c for c in cases if c.get("reader_dep")), key=lambda c: len(c.get("info", ""))):
+        k = c["reader_dep"].split(" (")[0][-60:] + c["reader_dep"].split(" under reader configuration")[-1][:80]
+        if k in seen_dep or len(seen_dep) >= 4:
+            continue
+        seen_dep.add(k)
+        chk.violation(c["reader_dep"], {"case": slim(c), "seed": c.get("seed", chk.seed), "tier": chk.tier}, True)
     # inside a finding's region the recorded outcome is matched exactly: anything else is a violation
     for c in sorted((c for c in cases if c.get("region_violation")), key=lambda c: len(c.get("info", "")))[:3]:
         chk.violation("inside the region of a known finding the code does something else than the recorded outcome: "
@@ -247,6 +255,7 @@ def run(chk, only_seed=None):
         "compressor_hypothesis_runs": data["hyp_runs"], "compressor_hypothesis_failures": len(data["hyp_fail"]),
         "input_distribution": dist, "emit_pairs_observed": data["emit_pairs"],
         "harness_seconds": round(secs, 1), "seeds": seeds,
+        "decoded_under_reader_configs": sum(1 for c in cases if c.get("dec") not in (None, "-")), "reader_configs_per_case": 4,
         "interleaved_flush_pairs": sum(1 for c in cases if (c.get("what") or "").startswith("interleaved")) // 2,
         "lz4_region_cases_matched_to_expected_outcome": sum(1 for c in cases if c.get("expect")),
         "e2e_undo_rows_through_real_scanner": len(e2e_rows), "e2e_rollbacks": len(e2e_rb),
